@@ -63,4 +63,29 @@ theorem stepState_str (kd : Kind) (res : Key → Res) (s : State) (l : Label) :
     stepState Gen.strPrograms kd res s l = step kd res s l := by
   cases l <;> simp only [stepState, step, program_sim_str] <;> (try rfl) <;> (split <;> first | rfl | (split <;> rfl))
 
+
+theorem reachableIR_offset {kd : Kind} {res : Key → Res} {s0 s : State} :
+    ReachableIR Gen.offsetPrograms kd res s0 s ↔ Reachable kd res s0 s := by
+  constructor
+  · intro h
+    induction h with
+    | init => exact .init
+    | step _ hs ih => exact .step ih (by rw [← stepState_offset]; exact hs)
+  · intro h
+    induction h with
+    | init => exact .init
+    | step _ hs ih => exact .step ih (by rw [stepState_offset]; exact hs)
+
+theorem reachableIR_str {kd : Kind} {res : Key → Res} {s0 s : State} :
+    ReachableIR Gen.strPrograms kd res s0 s ↔ Reachable kd res s0 s := by
+  constructor
+  · intro h
+    induction h with
+    | init => exact .init
+    | step _ hs ih => exact .step ih (by rw [← stepState_str]; exact hs)
+  · intro h
+    induction h with
+    | init => exact .init
+    | step _ hs ih => exact .step ih (by rw [stepState_str]; exact hs)
+
 end Fact.IR
